@@ -699,22 +699,28 @@ def verify_directory_hash_subcommand(
 
     # FIXME: Update once argument signature has been modified to supply a list of formats
     hash_formats = []
+    # the formats recorded for the root folder itself, their hashes cover the entire tree
+    root_hash_formats = []
 
     # choose the hash format of the latest root directory hash
     if hash_format is None:
         generation = -1
-        # inspect the history and use all documented algorithms as the basis of verification
-        for hash_list in existing_history.hash_lists:
-            if hash_list.generation_number > generation:
-                # add each hash entry's format to the list of formats
-                # (generations created without directory hashes don't have a root hash)
-                root_media_hash = hash_list.process_info.root_media_hash
-                if root_media_hash is not None and len(root_media_hash.hash_entries) > 0:
-                    for entry in root_media_hash.hash_entries:
-                        entry_hash_format = entry.hash_format
-                        # do not permit duplicate entries in the list
-                        if entry_hash_format not in hash_formats:
-                            hash_formats.append(entry_hash_format)
+        # inspect the history and use all documented algorithms as the basis of verification,
+        # nested histories might have recorded directory hashes in formats the root history never used
+        for history in MHLHistory.walk_child_histories(existing_history):
+            for hash_list in history.hash_lists:
+                if hash_list.generation_number > generation:
+                    # add each hash entry's format to the list of formats
+                    # (generations created without directory hashes don't have a root hash)
+                    root_media_hash = hash_list.process_info.root_media_hash
+                    if root_media_hash is not None and len(root_media_hash.hash_entries) > 0:
+                        for entry in root_media_hash.hash_entries:
+                            entry_hash_format = entry.hash_format
+                            # do not permit duplicate entries in the list
+                            if entry_hash_format not in hash_formats:
+                                hash_formats.append(entry_hash_format)
+                            if history is existing_history and entry_hash_format not in root_hash_formats:
+                                root_hash_formats.append(entry_hash_format)
         if not hash_formats:
             hash_formats.append("c4")
             logger.verbose(f"default hash format: c4")
@@ -779,6 +785,10 @@ def verify_directory_hash_subcommand(
 
                 num_successful_verifications = 0
                 for directory_hash_entry in directory_hash_entries:
+                    # recorded in a format that is not verified in this run (explicit --hash_format)
+                    if directory_hash_entry.hash_format not in hash_format_list:
+                        continue
+
                     content_hash = None
                     structure_hash = None
 
@@ -856,6 +866,8 @@ def verify_directory_hash_subcommand(
                 root_hash_entries = hash_list.process_info.root_media_hash.hash_entries
                 if len(root_hash_entries) > 0:
                     for root_hash_entry in root_hash_entries:
+                        if root_hash_entry.hash_format not in hash_format_list:
+                            continue
                         hash_format = root_hash_entry.hash_format
                         found_hash_format = False
                         dir_content_hash = None
@@ -884,8 +896,10 @@ def verify_directory_hash_subcommand(
     exception = None
 
     # check the failure lookup.  if even one format verified, consider the entire process verified
+    # only formats recorded for the root folder can vouch for the entire tree
+    decisive_formats = root_hash_formats if root_hash_formats else hash_format_list
     if failures_per_format_lookup:
-        if len(failures_per_format_lookup.keys()) == len(hash_format_list):
+        if all(decisive_format in failures_per_format_lookup for decisive_format in decisive_formats):
             exception = errors.VerificationDirectoriesFailedException()
 
     if exception:
